@@ -14,10 +14,12 @@ from concurrent.futures import ThreadPoolExecutor
 from harness import core, tlc
 from props import res_common as rc
 
-GROUPS = [["using", "do_on_subscribe", "do_on_dispose"],
+GROUPS = [["using", "do_on_subscribe", "do_on_dispose", "do_action_0"],
           ["finally_action", "do_finally", "do_on_terminate", "do_after_terminate"],
-          ["do_action", "do_after_next"],
-          ["do_observer"]]
+          ["do_action", "do_after_next", "do_action_ec"],
+          ["do_observer", "do_action_n"]]
+QUICK_GROUPS = [["using", "do_on_subscribe", "do_on_dispose", "do_observer", "do_action_n"],
+                ["finally_action", "do_finally", "do_on_terminate", "do_after_terminate", "do_action", "do_after_next"]]
 
 
 JVM = {"JAVA_TOOL_OPTIONS": "-XX:TieredStopAtLevel=1 -XX:ParallelGCThreads=2"}   # short runs on a shared box: C1 only, few GC threads
@@ -42,7 +44,7 @@ def run(tier: str) -> int:
     k = 2
     if tier == "quick":
         consts = dict(NVals=k, MaxLen=2, Terms={"C", "E", "U"}, MaxSubs=2, Disposes=True, Faults=True, Dsp2="few", Canon=True)
-        lines = export(ck, consts, "exhaustive", groups=[GROUPS[0] + GROUPS[3], GROUPS[1] + GROUPS[2]])
+        lines = export(ck, consts, "exhaustive", groups=QUICK_GROUPS)
     else:
         consts = dict(NVals=k, MaxLen=3, Terms={"C", "E", "U"}, MaxSubs=2, Disposes=True, Faults=True, Dsp2="all", Canon=False)
         lines = export(ck, consts, "exhaustive")
@@ -57,7 +59,7 @@ def run(tier: str) -> int:
         k = 3
     ck.exhaustive = True
     groups = core.group_allowed(lines)
-    ck.rule = ("operator (10) x inner timeline (0..MaxLen elements over 2 tokens; completes, errors or never ends) x fault position "
+    ck.rule = ("operator (10, do_action also with only some of its callbacks given) x inner timeline (0..MaxLen elements over 2 tokens; completes, errors or never ends) x fault position "
                "(resource factory raises / returns None, observable factory raises, k-th per-element callback raises, terminal "
                "callbacks raise, on_subscribe raises) x 1..2 subscriptions of the same observable x a dispose point per subscription "
                "(after every event, both tie orders, never), enumerated by TLC on OpsResource.tla; each run on the real operators "
